@@ -283,7 +283,11 @@ func (t *TimestampType) Name() string {
 	return `Timestamp`
 }
 
+// WrapTimestamp returns the Timestamp of the wall clock reading of the given time. A monotonic clock reading
+// that the time carries (time.Now) is stripped: Equal compares two times that both carry one by those readings
+// alone, while the hash key and the text of a Timestamp are made from the wall clock reading.
 func WrapTimestamp(time time.Time) *Timestamp {
+	time = time.Round(0)
 	return (*Timestamp)(&time)
 }
 
@@ -342,9 +346,7 @@ func loadLocation(tz string) *time.Location {
 
 func (tv *Timestamp) Equals(o interface{}, g px.Guard) bool {
 	if ov, ok := o.(*Timestamp); ok {
-		// Round(0) strips the monotonic clock reading. Equal compares two times that both carry such a reading
-		// by those readings alone, the hash key and the text are made from the wall clock reading.
-		return (*time.Time)(tv).Round(0).Equal((*time.Time)(ov).Round(0))
+		return (*time.Time)(tv).Equal(*(*time.Time)(ov))
 	}
 	return false
 }
